@@ -45,7 +45,7 @@ TECHNIQUE = "model-based stateful PBT (exhaustive small-scope + Hypothesis op-li
 
 OPS_W = (
     ["edge"] * 6 + ["v1"] * 4 + ["v2"] * 4 + ["link"] * 4 + ["unlink"] * 3
-    + ["ua", "ur", "va", "vr"] + ["newv_u", "newu", "newu2", "newv_u2", "lawsnone", "edge_bad"] + ["flag", "bulk", "bulk_u"] + ["av", "uf"]
+    + ["ua", "ur", "va", "vr"] + ["newv_u", "newu", "newu2", "newv_u2", "lawsnone", "edge_bad"] + ["flag", "bulk", "bulk_u"] + ["av", "uf"] + ["bulk_big"]
 )
 
 # coverage-guided extra engine (atheris): executions per fuzzer process, 16 processes
